@@ -8,3 +8,5 @@ func installFineGrain(s *sched) {}
 func uninstallFineGrain()       {}
 
 func setSimClock(t int64, onRead func(site string)) {}
+
+func setStmtHook(f func(site string)) {}
